@@ -66,6 +66,21 @@ inductive CmpOp where
   | eq | ne | lt | le | gt | ge | in_ | notIn
   deriving DecidableEq, Repr
 
+/-- what is called: `CallType::{Function, Method, Object}` of a call expression, or a filter / test
+    (they share `compile_call_args`) -/
+inductive CallKind where
+  | function | method | object | filter | test
+  deriving DecidableEq, Repr
+
+/-- an evaluated argument, as `compile_call_args` arranges the stack for the callee: positional
+    values and `*splat` values in source order, then keyword values and `**splat` values in source order -/
+inductive ArgV where
+  | pos (v : V)
+  | posSplat (v : V)
+  | kw (name : String) (v : V)
+  | kwSplat (v : V)
+  deriving Repr
+
 mutual
   /-- `ast::Expr`, literal fragment + variables + calls with keyword arguments -/
   inductive Expr where
@@ -86,6 +101,10 @@ mutual
     | test (name : String) (e : Expr) (pos : Exprs) (kws : Kws)
     /-- `CallType::Function(name)` -/
     | call (name : String) (pos : Exprs) (kws : Kws)
+    /-- the general call form: any callee kind (`recv` = the receiver of a method call, the callee of
+        an object call, the subject of a filter or test; empty for a function call) and any mix of
+        positional, `*splat`, keyword and `**splat` arguments -/
+    | callx (kind : CallKind) (recv : Exprs) (name : String) (args : Args)
   inductive OptExpr where
     | none
     | some (e : Expr)
@@ -104,6 +123,13 @@ mutual
   inductive Kws where
     | nil
     | cons (name : String) (e : Expr) (rest : Kws)
+  /-- `Vec<CallArg>`: `Pos`, `PosSplat`, `Kwarg`, `KwargSplat` in source order -/
+  inductive Args where
+    | nil
+    | pos (e : Expr) (rest : Args)
+    | posSplat (e : Expr) (rest : Args)
+    | kw (name : String) (e : Expr) (rest : Args)
+    | kwSplat (e : Expr) (rest : Args)
 end
 
 /-- the value operations shared by the folder and the VM -/
@@ -141,6 +167,11 @@ structure Prims where
   filter : Mode → String → List V → List (String × V) → Except Err V
   /-- `PerformTest(name)` -/
   test : Mode → String → List V → List (String × V) → Except Err Bool
+  /-- the general call: `UnpackLists` / `MergeKwargs` over the evaluated arguments, then
+      `CallFunction` / `CallMethod` / `CallObject` / `ApplyFilter` / `PerformTest`.  `BuildKwargs` over
+      evaluated pairs and `LoadConst(Kwargs::wrap(..))` over constant pairs both fill a `ValueMap` in
+      source order, so the callee sees the keyword pieces `kw n v` either way. -/
+  callX : Mode → CallKind → String → List V → List ArgV → Except Err V
   /-- does `Expr::as_const` have an arm for this variant of `enum Expr`?  (The concrete instance
       reads the list regenerated from `compiler/ast.rs`; the model's folder dispatches over it, so
       it folds exactly the node kinds the source folds.) -/
@@ -227,6 +258,18 @@ def constKws : Kws → Option (List (String × V))
   | .cons n (.const v) rest => (constKws rest).map ((n, v) :: ·)
   | .cons _ _ _ => none
 
+/-- the static keyword arguments of `compile_call_args` in the general form: every keyword value a
+    direct constant and no `**splat` (a `*splat` does not switch the static path off) -/
+def constKwArgs : Args → Option (List (String × V))
+  | .nil => some []
+  | .pos _ rest => constKwArgs rest
+  | .posSplat _ rest => constKwArgs rest
+  | .kw n (.const v) rest => (constKwArgs rest).map ((n, v) :: ·)
+  | .kw _ _ _ => none
+  | .kwSplat _ _ => none
+
+def kwPieces (ks : List (String × V)) : List ArgV := ks.map fun p => .kw p.1 p.2
+
 mutual
   /-- `Expr::as_const` -/
   def asConst : Expr → Option V
@@ -255,6 +298,7 @@ mutual
     | .filter _ _ _ _ => none
     | .test _ _ _ _ => none
     | .call _ _ _ => none
+    | .callx _ _ _ _ => none
   /-- the `for op in &c.ops` loop of the `Compare` arm; an operand is only looked at when reached -/
   def asConstChain (left : V) : Chain → Option V
     | .nil => some (.bool true)
@@ -511,6 +555,15 @@ mutual
       | .ok ps => match evalRtKws kws with
         | .error e => .error e
         | .ok ks => P.callKw m name ps ks
+    | .callx kind recv name args =>
+      -- receiver; first loop of `compile_call_args` (positional and `*splat`); second loop (keyword and `**splat`)
+      match evalRtList recv with
+      | .error e => .error e
+      | .ok rv => match evalRtArgsPos args with
+        | .error e => .error e
+        | .ok ps => match evalRtArgsKw args with
+          | .error e => .error e
+          | .ok ks => P.callX m kind name rv (ps ++ ks)
   /-- an optional operand; `dflt` is what the code generator loads when it is missing -/
   def evalRtOpt (dflt : V) : OptExpr → Except Err V
     | .none => .ok dflt
@@ -555,6 +608,38 @@ mutual
       | .ok v => match evalRtKws rest with
         | .error e => .error e
         | .ok ks => .ok ((n, v) :: ks)
+  def evalRtArgsPos : Args → Except Err (List ArgV)
+    | .nil => .ok []
+    | .pos e rest =>
+      match evalRt e with
+      | .error e => .error e
+      | .ok v => match evalRtArgsPos rest with
+        | .error e => .error e
+        | .ok vs => .ok (.pos v :: vs)
+    | .posSplat e rest =>
+      match evalRt e with
+      | .error e => .error e
+      | .ok v => match evalRtArgsPos rest with
+        | .error e => .error e
+        | .ok vs => .ok (.posSplat v :: vs)
+    | .kw _ _ rest => evalRtArgsPos rest
+    | .kwSplat _ rest => evalRtArgsPos rest
+  def evalRtArgsKw : Args → Except Err (List ArgV)
+    | .nil => .ok []
+    | .pos _ rest => evalRtArgsKw rest
+    | .posSplat _ rest => evalRtArgsKw rest
+    | .kw n e rest =>
+      match evalRt e with
+      | .error e => .error e
+      | .ok v => match evalRtArgsKw rest with
+        | .error e => .error e
+        | .ok vs => .ok (.kw n v :: vs)
+    | .kwSplat e rest =>
+      match evalRt e with
+      | .error e => .error e
+      | .ok v => match evalRtArgsKw rest with
+        | .error e => .error e
+        | .ok vs => .ok (.kwSplat v :: vs)
 end
 
 /-! ## what `compile_expr` really emits: fold first, otherwise run-time code over compiled children -/
@@ -680,6 +765,18 @@ mutual
         | none => match evalCKws kws with
           | .error e => .error e
           | .ok ks => P.callKw m name ps ks
+    | .callx kind recv name args =>
+      match evalCList recv with
+      | .error e => .error e
+      | .ok rv => match evalCArgsPos args with
+        | .error e => .error e
+        | .ok ps =>
+          -- `static_kwargs`: all keyword values constants, no `**splat`
+          match gate (P.codegenSpecial "static-kwargs") (constKwArgs args) with
+          | some ks => P.callX m kind name rv (ps ++ kwPieces ks)
+          | none => match evalCArgsKw args with
+            | .error e => .error e
+            | .ok ks => P.callX m kind name rv (ps ++ ks)
   def evalCOpt (dflt : V) : OptExpr → Except Err V
     | .none => .ok dflt
     | .some e => evalC e
@@ -721,6 +818,123 @@ mutual
       | .ok v => match evalCKws rest with
         | .error e => .error e
         | .ok ks => .ok ((n, v) :: ks)
+  def evalCArgsPos : Args → Except Err (List ArgV)
+    | .nil => .ok []
+    | .pos e rest =>
+      match evalC e with
+      | .error e => .error e
+      | .ok v => match evalCArgsPos rest with
+        | .error e => .error e
+        | .ok vs => .ok (.pos v :: vs)
+    | .posSplat e rest =>
+      match evalC e with
+      | .error e => .error e
+      | .ok v => match evalCArgsPos rest with
+        | .error e => .error e
+        | .ok vs => .ok (.posSplat v :: vs)
+    | .kw _ _ rest => evalCArgsPos rest
+    | .kwSplat _ rest => evalCArgsPos rest
+  def evalCArgsKw : Args → Except Err (List ArgV)
+    | .nil => .ok []
+    | .pos _ rest => evalCArgsKw rest
+    | .posSplat _ rest => evalCArgsKw rest
+    | .kw n e rest =>
+      match evalC e with
+      | .error e => .error e
+      | .ok v => match evalCArgsKw rest with
+        | .error e => .error e
+        | .ok vs => .ok (.kw n v :: vs)
+    | .kwSplat e rest =>
+      match evalC e with
+      | .error e => .error e
+      | .ok v => match evalCArgsKw rest with
+        | .error e => .error e
+        | .ok vs => .ok (.kwSplat v :: vs)
+end
+
+/-! ## the constants in the emitted code
+
+`constsC e` lists the values of the `LoadConst` instructions of the code `compile_expr` emits for `e`,
+in code order: a folded node is ONE constant (the folder's value), an unfolded node contributes the
+constants of its children plus the fixed ones of its own code (`none` for a missing slice bound, the
+silent undefined for a missing `else`, the negated constant of the `Neg` shortcut, the static keyword
+map, the names of dynamic keyword arguments).  No operator rewrites an operand into another constant:
+the right operand of `in` is compiled like every other operand.  The driver prints this list and the
+check compares it with the real instruction stream of the hoisting variants. -/
+
+/-- `Kwargs::wrap(collected_kwargs)`: a `ValueMap` filled by `insert(Value::from(key), value)` -/
+def kwargsValue (ks : List (String × V)) : V := P.mkMap (ks.map fun (n, v) => (V.str n, v))
+
+def foldedK (e : Expr) (rt : List V) : List V :=
+  match foldFirst P e with
+  | some v => [v]
+  | none => rt
+
+mutual
+  def constsC : Expr → List V
+    | .const v => [v]
+    | .var _ => []
+    | .list items => foldedK P (.list items) (constsCList items)
+    | .tuple items => foldedK P (.tuple items) (constsCList items)
+    | .map kvs => foldedK P (.map kvs) (constsCPairs kvs)
+    | .not e => foldedK P (.not e) (constsC e)
+    | .neg e => foldedK P (.neg e)
+      (match gate (P.codegenSpecial "neg-const-shortcut")
+               (match e with
+                | .const c => Except.toOpt (P.neg c)
+                | _ => none) with
+      | some negated => [negated]
+      | none => constsC e)
+    | .bin op l r => foldedK P (.bin op l r) (constsC l ++ constsC r)
+    | .cmp e ops => foldedK P (.cmp e ops) (constsC e ++ constsCChain ops)
+    | .getAttr e _ => constsC e
+    | .getItem e idx => constsC e ++ constsC idx
+    | .slice e a b c => constsC e ++ constsCOpt .none a ++ constsCOpt .none b ++ constsCOpt .none c
+    | .ifExpr c t f => constsC c ++ constsC t ++ constsCOpt .silent f
+    | .filter _ e pos kws => constsC e ++ constsCList pos ++
+        (match gate (P.codegenSpecial "static-kwargs") (constKws kws) with
+         | some ks => if ks.isEmpty then [] else [kwargsValue P ks]
+         | none => constsCKws kws)
+    | .test _ e pos kws => constsC e ++ constsCList pos ++
+        (match gate (P.codegenSpecial "static-kwargs") (constKws kws) with
+         | some ks => if ks.isEmpty then [] else [kwargsValue P ks]
+         | none => constsCKws kws)
+    | .call _ pos kws => constsCList pos ++
+        (match gate (P.codegenSpecial "static-kwargs") (constKws kws) with
+         | some ks => if ks.isEmpty then [] else [kwargsValue P ks]
+         | none => constsCKws kws)
+    | .callx _ recv _ args => constsCList recv ++ constsCArgsPos args ++
+        (match gate (P.codegenSpecial "static-kwargs") (constKwArgs args) with
+         | some ks => if ks.isEmpty then [] else [kwargsValue P ks]
+         | none => constsCArgsKw args)
+  def constsCOpt (dflt : V) : OptExpr → List V
+    | .none => [dflt]
+    | .some e => constsC e
+  def constsCList : Exprs → List V
+    | .nil => []
+    | .cons e es => constsC e ++ constsCList es
+  def constsCPairs : Pairs → List V
+    | .nil => []
+    | .cons k v rest => constsC k ++ constsC v ++ constsCPairs rest
+  def constsCChain : Chain → List V
+    | .nil => []
+    | .cons _ e rest => constsC e ++ constsCChain rest
+  /-- the dynamic path: `LoadConst(name)` before every value -/
+  def constsCKws : Kws → List V
+    | .nil => []
+    | .cons n e rest => .str n :: (constsC e ++ constsCKws rest)
+  def constsCArgsPos : Args → List V
+    | .nil => []
+    | .pos e rest => constsC e ++ constsCArgsPos rest
+    | .posSplat e rest => constsC e ++ constsCArgsPos rest
+    | .kw _ _ rest => constsCArgsPos rest
+    | .kwSplat _ rest => constsCArgsPos rest
+  def constsCArgsKw : Args → List V
+    | .nil => []
+    | .pos _ rest => constsCArgsKw rest
+    | .posSplat _ rest => constsCArgsKw rest
+    | .kw n e rest => .str n :: (constsC e ++ constsCArgsKw rest)
+    | .kwSplat e rest => constsC e ++ constsCArgsKw rest
 end
 
 /-! ## the call of a `{% call %}` block (`compile_call_block` → `compile_call(.., Some(caller))`)
@@ -755,6 +969,32 @@ def evalCallBlockC (name : String) (pos : Exprs) (kws : Kws) (caller : V) : Exce
     | none => match evalCKws P m ρ kws with
       | .error e => .error e
       | .ok ks => P.callKw m name ps (ks ++ [("caller", caller)])
+
+/-- the general form (any callee kind, any arguments): run-time semantics -/
+def evalCallBlockXRt (kind : CallKind) (recv : Exprs) (name : String) (args : Args) (caller : V) : Except Err V :=
+  match evalRtList P m ρ recv with
+  | .error e => .error e
+  | .ok rv => match evalRtArgsPos P m ρ args with
+    | .error e => .error e
+    | .ok ps => match evalRtArgsKw P m ρ args with
+      | .error e => .error e
+      | .ok ks => P.callX m kind name rv (ps ++ ks ++ [.kw "caller" caller])
+
+/-- … and what `compile_call(.., Some(caller))` emits for it -/
+def evalCallBlockXC (kind : CallKind) (recv : Exprs) (name : String) (args : Args) (caller : V) : Except Err V :=
+  match evalCList P m ρ recv with
+  | .error e => .error e
+  | .ok rv => match evalCArgsPos P m ρ args with
+    | .error e => .error e
+    | .ok ps =>
+      let staticInit := !P.codegenSpecial "static-kwargs-off-for-caller"
+      match gate (P.codegenSpecial "static-kwargs" && staticInit) (constKwArgs args) with
+      | some ks =>
+        if ks.isEmpty then P.callX m kind name rv (ps ++ [.kw "caller" caller])
+        else P.callX m kind name rv (ps ++ kwPieces ks)
+      | none => match evalCArgsKw P m ρ args with
+        | .error e => .error e
+        | .ok ks => P.callX m kind name rv (ps ++ ks ++ [.kw "caller" caller])
 
 /-- the two shapes of code `compile_expr` produces for a whole expression -/
 inductive Code where
@@ -796,6 +1036,7 @@ mutual
     | .filter _ e pos kws => e.WF ∧ pos.WF ∧ kws.WF
     | .test _ e pos kws => e.WF ∧ pos.WF ∧ kws.WF
     | .call _ pos kws => pos.WF ∧ kws.WF
+    | .callx _ recv _ args => recv.WF ∧ args.WF
   def OptExpr.WF : OptExpr → Prop
     | .none => True
     | .some e => e.WF
@@ -811,6 +1052,12 @@ mutual
   def Kws.WF : Kws → Prop
     | .nil => True
     | .cons _ e rest => e.WF ∧ rest.WF
+  def Args.WF : Args → Prop
+    | .nil => True
+    | .pos e rest => e.WF ∧ rest.WF
+    | .posSplat e rest => e.WF ∧ rest.WF
+    | .kw _ e rest => e.WF ∧ rest.WF
+    | .kwSplat e rest => e.WF ∧ rest.WF
 end
 
 /-- no primitive returns `undefined` (in the Rust code they return numbers, strings, booleans,
@@ -858,6 +1105,7 @@ mutual
     | .filter n a pos kws, e' => ∃ a' pos' kws', e' = .filter n a' pos' kws' ∧ Hoist a a' ∧ HoistList pos pos' ∧ HoistKws kws kws'
     | .test n a pos kws, e' => ∃ a' pos' kws', e' = .test n a' pos' kws' ∧ Hoist a a' ∧ HoistList pos pos' ∧ HoistKws kws kws'
     | .call n pos kws, e' => ∃ pos' kws', e' = .call n pos' kws' ∧ HoistList pos pos' ∧ HoistKws kws kws'
+    | .callx k recv n args, e' => ∃ recv' args', e' = .callx k recv' n args' ∧ HoistList recv recv' ∧ HoistArgs args args'
   def HoistOpt : OptExpr → OptExpr → Prop
     | .none, o' => o' = .none
     | .some e, o' => ∃ e', o' = .some e' ∧ Hoist e e'
@@ -873,6 +1121,12 @@ mutual
   def HoistKws : Kws → Kws → Prop
     | .nil, k' => k' = .nil
     | .cons n e rest, k' => ∃ e' rest', k' = .cons n e' rest' ∧ Hoist e e' ∧ HoistKws rest rest'
+  def HoistArgs : Args → Args → Prop
+    | .nil, a' => a' = .nil
+    | .pos e rest, a' => ∃ e' rest', a' = .pos e' rest' ∧ Hoist e e' ∧ HoistArgs rest rest'
+    | .posSplat e rest, a' => ∃ e' rest', a' = .posSplat e' rest' ∧ Hoist e e' ∧ HoistArgs rest rest'
+    | .kw n e rest, a' => ∃ e' rest', a' = .kw n e' rest' ∧ Hoist e e' ∧ HoistArgs rest rest'
+    | .kwSplat e rest, a' => ∃ e' rest', a' = .kwSplat e' rest' ∧ Hoist e e' ∧ HoistArgs rest rest'
 end
 
 end
